@@ -75,7 +75,7 @@ func bvValue(s string) (uint64, bool) {
 func queryModel(asserts []*Term, extra []*Term, obs []observable, sec int) (map[string]string, bool) {
 	as := append(append([]*Term{}, asserts...), extra...)
 	script := ScriptObs(as, obs)
-	for _, sd := range []solverDef{solvers[0], solvers[1]} {
+	for _, sd := range []solverDef{solvers[0], solvers[2]} {
 		r := runSolver(context.Background(), sd, script, sec)
 		if r.verdict == "sat" {
 			return parseValues(r.output), true
@@ -320,7 +320,11 @@ func (P *Prog) replay(root, prop string, o *Obligation, tier string) *ReplayResu
 		res.Detail = "no replay harness for this function (kind " + kind + ")"
 		return finish()
 	}
-	asserts := append(enableAsserts(ctxv.cands), o.PC, Not(o.Goal))
+	goal := o.Goal
+	if o.FailedGoal != nil {
+		goal = o.FailedGoal
+	}
+	asserts := append(enableAsserts(ctxv.cands), o.PC, Not(goal))
 	var vals map[string]string
 	found := false
 	for _, bound := range []uint64{16, 64, 512, 4096, maxReplayBytes} {
